@@ -1,8 +1,1650 @@
-//! C15 — not built yet.
+//! C15 — serialization fails cleanly under I/O faults instead of corrupting or panicking.
+//!
+//! Engine E4 (fault-sequence enumeration) realised as E1 sections whose cases are
+//! (object, fault script) resp. (object, batch of fault scripts):
+//!
+//!  * `write_single`   every object: fault-free run + EVERY single deviation at EVERY write-call index
+//!  * `write_pairs`    every object with <= P write calls: ALL pairs of deviations (one case per first deviation)
+//!  * `write_triples`  every object with <= T write calls: ALL triples of deviations
+//!  * `write_uniform`  every object: writers that accept at most k bytes on EVERY call (k = 1..7), alone and
+//!                     combined with one failure / interruption / zero-write at every call index
+//!  * `read_trunc`     every object x per-call read limit {1,3,8,unlimited}: EVERY truncation offset 0..len-1
+//!                     (must be Err), and the complete stream (must restore the object exactly)
+//!  * `read_faults`    every object x read limit: complete stream with one Interrupted / one hard error at EVERY
+//!                     read-call index; for short encodings additionally every (truncation offset, Interrupted index)
+//!
+//! A writer deviation at call index i is one of: accept only k of the offered bytes (1 <= k <= 7, k < offered),
+//! fail with ErrorKind::Other, fail with ErrorKind::Interrupted (to be retried per the `Write` contract), return
+//! Ok(0). Call indices count every call to `Write::write`, including the retries caused by earlier deviations; the
+//! set of deviations available at a later index is derived from the recorded trace of the run with the earlier
+//! deviations applied, so every enumerated script really takes effect.
+
 use crate::engine::*;
+use crate::he::{self, Kit, ParamSpec, Scheme};
+use heathcliff::app::matmul::cipher3d::{Cipher3d, Plain3d};
+use heathcliff::app::matmul::{Cipher1d, Cipher2d, Plain1d, Plain2d};
+use heathcliff::app::rns_plain::{
+    RnspCiphertext, RnspGaloisKeys, RnspHeContext, RnspPublicKey, RnspRelinKeys, RnspSerializableWithHeContext,
+};
+use heathcliff::{
+    Ciphertext, EncryptionParameters, ExpandSeed, GaloisKeys, HeContext, KSwitchKeys, KeyGenerator, Modulus, ParmsID, Plaintext,
+    PolynomialSerializer, PublicKey, RelinKeys, SecretKey, Serializable, SerializableWithHeContext, PARMS_ID_ZERO,
+};
+use serde::{Deserialize, Serialize};
+use std::cell::RefCell;
+use std::collections::BTreeMap;
+use std::io::{self, ErrorKind, Read, Write};
+use std::rc::Rc;
+use std::sync::Arc;
+use std::time::Duration;
 
-pub fn describe(_rep: &Report) {}
+pub fn describe(rep: &Report) {
+    rep.set_rule(
+        "case = (object kind + explicit parameter set, fault script prefix, extension depth): the check runs the prefix script and every \
+         extension of it by `depth` further deviations at every later call index (traces_validated_against_impl counts the individual fault \
+         scripts executed on the real serializers). Read cases = (object, per-call read limit, mode) and loop over every truncation offset / \
+         fault index. non-trivial = at least one script of the case actually injected a fault (short accept, error, interruption, zero \
+         write, truncation).",
+    );
+    rep.assume("the reference encoding of an object is what the same serializer writes into a plain Vec<u8> (format correctness is C14's subject); its length must equal the returned count and serialized_size");
+    rep.assume("restored objects are compared field-wise (data words, sizes, ids, scale bits, factor, form) with the original, seeded objects with expand_seed(original); for the selected-terms formats the reference is the fault-free deserialization");
+    rep.assume("objects are taken at the smallest parameter sets (N = 4/8/16, 1-3 primes of 1-3 bytes; thorough adds 4- and 8-byte primes and N = 16 keys); encodings 1 B .. ~5 KB");
+    rep.assume("an Err result is accepted for every faulty writer (the statement allows 'or returns an error'), also for writers that only short-accept or interrupt; Ok is accepted only with the complete reference encoding in the sink and the exact byte count");
+    rep.assume("streams are only truncated or delayed, never altered: corrupted (bit-flipped) encodings are outside this property (by reading: a corrupted length field reaches Vec::with_capacity / indexing unchecked, a corrupted parms id reaches get_context_data(..).unwrap())");
+    rep.assume("the fault-injecting sink never holds more than the reference encoding and both streams panic after 2*len+64 calls, so a looping (de)serializer is reported (writes-beyond-encoding / unbounded-writes / unbounded-reads) instead of exhausting memory; the address space is limited to 8 GiB and a process abort inside a case (allocation failure) is turned into a VIOLATION with a replay file by a SIGABRT handler");
+    rep.assume("failing scripts are reduced (drop the cap, drop single deviations) before the violation key is formed; key = direction : source-file family of the entry point : symptom : remaining fault kinds : bytes offered at the first fault");
+}
 
-pub fn sections(_cfg: &RunCfg) -> Vec<Box<dyn AnySection>> {
-    vec![]
+// ------------------------------------------------------------------------------------------
+// fault scripts
+// ------------------------------------------------------------------------------------------
+
+#[derive(Serialize, Deserialize, Clone, Copy, Debug, PartialEq, Eq, Hash)]
+pub enum Act {
+    /// accept only this many of the offered bytes (effective only if smaller than the offer)
+    Accept(u8),
+    /// Err(ErrorKind::Other)
+    Fail,
+    /// Err(ErrorKind::Interrupted): nothing was written, the caller is expected to retry
+    Interrupted,
+    /// Ok(0) on a non-empty buffer
+    Zero,
+}
+
+#[derive(Serialize, Deserialize, Clone, Copy, Debug, PartialEq, Eq, Hash)]
+pub struct Dev {
+    pub call: usize,
+    pub act: Act,
+}
+
+#[derive(Serialize, Deserialize, Clone, Debug, Default, PartialEq, Eq, Hash)]
+pub struct WScript {
+    /// every call accepts at most this many bytes
+    #[serde(default)]
+    pub cap: Option<u8>,
+    /// deviations, ascending call index
+    #[serde(default)]
+    pub devs: Vec<Dev>,
+}
+
+pub struct FaultyWriter<'a> {
+    script: &'a WScript,
+    pub sink: Vec<u8>,
+    call: usize,
+    /// offered length per call
+    pub trace: Vec<u32>,
+    /// bytes already in the sink at each call
+    pub starts: Vec<u32>,
+    /// number of calls whose behaviour differed from "accept everything"
+    pub effective: u32,
+    /// bytes offered at the first such call
+    pub first_offer: u32,
+    /// length of the reference encoding: the sink never grows beyond it
+    max_sink: usize,
+    /// the serializer offered bytes beyond the complete encoding (they were refused with an error)
+    pub overrun: bool,
+}
+
+/// message of the panic the fault-injecting streams raise when a (de)serializer keeps calling them without end
+const BOUND_MSG: &str = "C15-HARNESS call bound exceeded";
+
+impl<'a> FaultyWriter<'a> {
+    /// `ref_len`: length of the complete encoding. Memory use is bounded: the sink holds at most `ref_len` bytes and
+    /// at most 2*ref_len + 64 calls are recorded (every legitimate call either transfers a byte or is one of the few
+    /// deviations), after which the writer panics instead of letting a looping serializer run away.
+    pub fn new(script: &'a WScript, ref_len: usize) -> Self {
+        FaultyWriter {
+            script,
+            sink: Vec::with_capacity(ref_len),
+            call: 0,
+            trace: Vec::with_capacity(64),
+            starts: Vec::with_capacity(64),
+            effective: 0,
+            first_offer: 0,
+            max_sink: ref_len,
+            overrun: false,
+        }
+    }
+    fn hit(&mut self, offered: usize) {
+        if self.effective == 0 {
+            self.first_offer = offered as u32;
+        }
+        self.effective += 1;
+    }
+}
+
+impl Write for FaultyWriter<'_> {
+    fn write(&mut self, buf: &[u8]) -> io::Result<usize> {
+        let idx = self.call;
+        self.call += 1;
+        if idx > 2 * self.max_sink + 64 {
+            panic!("{BOUND_MSG}: {} write calls for an encoding of {} bytes", idx, self.max_sink);
+        }
+        self.trace.push(buf.len() as u32);
+        self.starts.push(self.sink.len() as u32);
+        if buf.is_empty() {
+            return Ok(0);
+        }
+        let mut n = buf.len();
+        let mut short = false;
+        if let Some(c) = self.script.cap {
+            if (c as usize) < n {
+                n = c as usize;
+                short = true;
+            }
+        }
+        for d in self.script.devs.iter() {
+            if d.call == idx {
+                match d.act {
+                    Act::Accept(k) => {
+                        if (k as usize) < n {
+                            n = k as usize;
+                            short = true;
+                        }
+                    }
+                    Act::Fail => {
+                        self.hit(buf.len());
+                        return Err(io::Error::new(ErrorKind::Other, "injected write failure"));
+                    }
+                    Act::Interrupted => {
+                        self.hit(buf.len());
+                        return Err(io::Error::new(ErrorKind::Interrupted, "injected interruption"));
+                    }
+                    Act::Zero => {
+                        self.hit(buf.len());
+                        return Ok(0);
+                    }
+                }
+            }
+        }
+        if short {
+            self.hit(buf.len());
+        }
+        if self.sink.len() + n > self.max_sink {
+            self.overrun = true;
+            return Err(io::Error::new(ErrorKind::Other, "sink full: more bytes than the complete encoding"));
+        }
+        self.sink.extend_from_slice(&buf[..n]);
+        Ok(n)
+    }
+    fn flush(&mut self) -> io::Result<()> {
+        Ok(())
+    }
+}
+
+#[derive(Serialize, Deserialize, Clone, Copy, Debug, PartialEq, Eq, Hash)]
+pub enum RAct {
+    Interrupted,
+    Fail,
+}
+
+pub struct FaultyReader<'a> {
+    data: &'a [u8],
+    /// the stream ends here
+    end: usize,
+    pub pos: usize,
+    /// at most this many bytes per call (0 = unlimited)
+    limit: usize,
+    pub call: usize,
+    dev: Option<(usize, RAct)>,
+    pub effective: u32,
+}
+
+impl<'a> FaultyReader<'a> {
+    pub fn new(data: &'a [u8], end: usize, limit: usize, dev: Option<(usize, RAct)>) -> Self {
+        FaultyReader { data, end, pos: 0, limit, call: 0, dev, effective: 0 }
+    }
+}
+
+impl Read for FaultyReader<'_> {
+    fn read(&mut self, buf: &mut [u8]) -> io::Result<usize> {
+        let idx = self.call;
+        self.call += 1;
+        if idx > 2 * self.data.len() + 64 {
+            panic!("{BOUND_MSG}: {} read calls on a stream of {} bytes", idx, self.end);
+        }
+        if buf.is_empty() {
+            return Ok(0);
+        }
+        if let Some((c, a)) = self.dev {
+            if c == idx {
+                self.effective += 1;
+                return Err(match a {
+                    RAct::Interrupted => io::Error::new(ErrorKind::Interrupted, "injected interruption"),
+                    RAct::Fail => io::Error::new(ErrorKind::Other, "injected read failure"),
+                });
+            }
+        }
+        let mut n = buf.len().min(self.end - self.pos);
+        if self.limit != 0 {
+            n = n.min(self.limit);
+        }
+        buf[..n].copy_from_slice(&self.data[self.pos..self.pos + n]);
+        self.pos += n;
+        Ok(n)
+    }
+}
+
+// ------------------------------------------------------------------------------------------
+// objects
+// ------------------------------------------------------------------------------------------
+
+#[derive(Serialize, Deserialize, Clone, Copy, Debug, PartialEq, Eq, Hash)]
+pub enum Kind {
+    U64,
+    Usize,
+    U8,
+    Bool,
+    F64,
+    VecU64,
+    ParmsId,
+    Modulus,
+    VecModulus,
+    Params,
+    Plain,
+    SecretKey,
+    Ct,
+    CtFull,
+    CtTerms,
+    PublicKey,
+    KSwitchKeys,
+    RelinKeys,
+    GaloisKeys,
+    Poly,
+    Plain1d,
+    Plain2d,
+    Plain3d,
+    Cipher1d,
+    Cipher2d,
+    Cipher3d,
+    Cipher1dTerms,
+    Cipher2dTerms,
+    Cipher3dTerms,
+    RnspCt,
+    RnspCtFull,
+    RnspCtTerms,
+    RnspVecCt,
+    RnspPublicKey,
+    RnspRelinKeys,
+    RnspGaloisKeys,
+}
+
+/// One serializable object, self-contained (explicit primes).
+#[derive(Serialize, Deserialize, Clone, Debug, PartialEq, Eq, Hash)]
+pub struct ObjSpec {
+    pub kind: Kind,
+    pub spec: ParamSpec,
+    /// seeded form (symmetric ciphertext / keys created with save_seed)
+    #[serde(default)]
+    pub seeded: bool,
+    /// kind-specific: scalar value index, ciphertext size (2/3), plaintext form, container shape, galois key set
+    #[serde(default)]
+    pub variant: u8,
+}
+
+type SerFn = Box<dyn Fn(&mut dyn Write) -> io::Result<usize>>;
+type DeFn = Box<dyn Fn(&mut dyn Read) -> io::Result<u64>>;
+
+pub struct Obj {
+    ser: SerFn,
+    /// deserialize and return the fingerprint of the restored object
+    de: DeFn,
+    /// serialized_size as reported by the library
+    size: usize,
+    /// fingerprint the restored object must have (None: the fault-free deserialization defines it)
+    ref_fp: Option<u64>,
+}
+
+fn ser_s<T: Serializable>(x: &T, mut w: &mut dyn Write) -> io::Result<usize> {
+    Serializable::serialize(x, &mut w)
+}
+fn de_s<T: Serializable>(mut r: &mut dyn Read) -> io::Result<T> {
+    <T as Serializable>::deserialize(&mut r)
+}
+fn ser_c<T: SerializableWithHeContext>(x: &T, ctx: &HeContext, mut w: &mut dyn Write) -> io::Result<usize> {
+    SerializableWithHeContext::serialize(x, ctx, &mut w)
+}
+fn de_c<T: SerializableWithHeContext>(ctx: &HeContext, mut r: &mut dyn Read) -> io::Result<T> {
+    <T as SerializableWithHeContext>::deserialize(ctx, &mut r)
+}
+fn ser_r<T: RnspSerializableWithHeContext>(x: &T, ctx: &RnspHeContext, mut w: &mut dyn Write) -> io::Result<usize> {
+    RnspSerializableWithHeContext::serialize(x, ctx, &mut w)
+}
+fn de_r<T: RnspSerializableWithHeContext>(ctx: &RnspHeContext, mut r: &mut dyn Read) -> io::Result<T> {
+    <T as RnspSerializableWithHeContext>::deserialize(ctx, &mut r)
+}
+
+fn obj_s<T: Serializable + 'static>(x: T, fp: fn(&T) -> u64) -> Obj {
+    let size = Serializable::serialized_size(&x);
+    let r = fp(&x);
+    Obj { ser: Box::new(move |w| ser_s(&x, w)), de: Box::new(move |r| de_s::<T>(r).map(|y| fp(&y))), size, ref_fp: Some(r) }
+}
+
+/// `reference` = what the restored object must look like (the expanded original for seeded objects)
+fn obj_c<T: SerializableWithHeContext + 'static>(x: T, reference: &T, ctx: &Arc<HeContext>, fp: fn(&T) -> u64) -> Obj {
+    let size = SerializableWithHeContext::serialized_size(&x, ctx);
+    let r = fp(reference);
+    let (c1, c2) = (ctx.clone(), ctx.clone());
+    Obj { ser: Box::new(move |w| ser_c(&x, &c1, w)), de: Box::new(move |r| de_c::<T>(&c2, r).map(|y| fp(&y))), size, ref_fp: Some(r) }
+}
+
+fn obj_r<T: RnspSerializableWithHeContext + 'static>(x: T, reference: &T, ctx: &RnspHeContext, fp: fn(&T) -> u64) -> Obj {
+    let size = RnspSerializableWithHeContext::serialized_size(&x, ctx);
+    let r = fp(reference);
+    let (c1, c2) = (ctx.clone(), ctx.clone());
+    Obj { ser: Box::new(move |w| ser_r(&x, &c1, w)), de: Box::new(move |r| de_r::<T>(&c2, r).map(|y| fp(&y))), size, ref_fp: Some(r) }
+}
+
+// fingerprints -----------------------------------------------------------------------------
+
+fn fp_u64(x: &u64) -> u64 {
+    h64(x)
+}
+fn fp_usize(x: &usize) -> u64 {
+    h64(x)
+}
+fn fp_u8(x: &u8) -> u64 {
+    h64(x)
+}
+fn fp_bool(x: &bool) -> u64 {
+    h64(x)
+}
+fn fp_f64(x: &f64) -> u64 {
+    h64(&x.to_bits())
+}
+fn fp_vec_u64(x: &Vec<u64>) -> u64 {
+    h64(x)
+}
+fn fp_parms_id(x: &ParmsID) -> u64 {
+    h64(x)
+}
+fn fp_modulus(x: &Modulus) -> u64 {
+    h64(&x.value())
+}
+fn fp_vec_modulus(x: &Vec<Modulus>) -> u64 {
+    h64(&x.iter().map(|m| m.value()).collect::<Vec<_>>())
+}
+fn fp_params(p: &EncryptionParameters) -> u64 {
+    h64(&(
+        p.scheme() as u8,
+        p.poly_modulus_degree(),
+        p.coeff_modulus().iter().map(|m| m.value()).collect::<Vec<_>>(),
+        p.plain_modulus().value(),
+        p.use_special_prime_for_encryption(),
+        *p.parms_id(),
+    ))
+}
+fn fp_pt(p: &Plaintext) -> u64 {
+    he::pt_fingerprint(p)
+}
+fn fp_sk(s: &SecretKey) -> u64 {
+    fp_pt(s.as_plaintext())
+}
+fn fp_ct(c: &Ciphertext) -> u64 {
+    he::ct_fingerprint(c)
+}
+fn fp_pk(p: &PublicKey) -> u64 {
+    fp_ct(p.as_ciphertext())
+}
+fn fp_ks(k: &KSwitchKeys) -> u64 {
+    h64(&(*k.parms_id(), k.keys().iter().map(|v| v.iter().map(fp_pk).collect::<Vec<_>>()).collect::<Vec<_>>()))
+}
+fn fp_rk(k: &RelinKeys) -> u64 {
+    fp_ks(k.as_kswitch_keys())
+}
+fn fp_gk(k: &GaloisKeys) -> u64 {
+    fp_ks(k.as_kswitch_keys())
+}
+fn fp_p1(p: &Plain1d) -> u64 {
+    h64(&(1u8, p.data.iter().map(fp_pt).collect::<Vec<_>>()))
+}
+fn fp_p2(p: &Plain2d) -> u64 {
+    h64(&(2u8, p.data.iter().map(fp_p1).collect::<Vec<_>>()))
+}
+fn fp_p3(p: &Plain3d) -> u64 {
+    h64(&(3u8, p.data.iter().map(fp_p2).collect::<Vec<_>>()))
+}
+fn fp_c1(p: &Cipher1d) -> u64 {
+    h64(&(1u8, p.data.iter().map(fp_ct).collect::<Vec<_>>()))
+}
+fn fp_c2(p: &Cipher2d) -> u64 {
+    h64(&(2u8, p.data.iter().map(fp_c1).collect::<Vec<_>>()))
+}
+fn fp_c3(p: &Cipher3d) -> u64 {
+    h64(&(3u8, p.data.iter().map(fp_c2).collect::<Vec<_>>()))
+}
+fn fp_rct(c: &RnspCiphertext) -> u64 {
+    h64(&c.components.iter().map(fp_ct).collect::<Vec<_>>())
+}
+fn fp_rvec(c: &Vec<RnspCiphertext>) -> u64 {
+    h64(&c.iter().map(fp_rct).collect::<Vec<_>>())
+}
+fn fp_rpk(c: &RnspPublicKey) -> u64 {
+    h64(&c.components.iter().map(fp_pk).collect::<Vec<_>>())
+}
+fn fp_rrk(c: &RnspRelinKeys) -> u64 {
+    h64(&c.components.iter().map(fp_rk).collect::<Vec<_>>())
+}
+fn fp_rgk(c: &RnspGaloisKeys) -> u64 {
+    h64(&c.components.iter().map(fp_gk).collect::<Vec<_>>())
+}
+
+/// seeded objects are restored in expanded form
+fn expanded<T: ExpandSeed + Clone>(x: &T, ctx: &HeContext) -> T {
+    if x.contains_seed() {
+        x.clone().expand_seed(ctx)
+    } else {
+        x.clone()
+    }
+}
+
+const SEED_FLAG: u64 = u64::MAX;
+const SEED_WORDS: usize = 8;
+/// second plain modulus of the RNS-plaintext wrappers
+const RNSP_T2: u64 = 13;
+
+struct World {
+    kit: Kit,
+    seed: u64,
+    tag: u64,
+}
+
+impl World {
+    fn new(spec: &ParamSpec, seed: u64, tag: u64) -> Result<World, String> {
+        he::env_real(seed, tag);
+        let kit = guard(|| Kit::new(spec)).map_err(|p| format!("context/keygen panicked: {p}"))??;
+        Ok(World { kit, seed, tag })
+    }
+    fn fill(&self, what: u64, i: usize) -> u64 {
+        h64(&(self.seed, self.tag, what, i))
+    }
+    fn scheme(&self) -> Scheme {
+        self.kit.spec.scheme
+    }
+
+    /// synthetic ciphertext at the first data level: residues below the primes, scheme-typical metadata
+    fn ct(&self, what: u64, size: usize, seeded: bool) -> Result<Ciphertext, String> {
+        let id = self.kit.levels()[0];
+        let q = self.kit.moduli_at(&id);
+        let n = self.kit.n();
+        let k = q.len();
+        let size = if seeded { 2 } else { size };
+        let mut data = vec![0u64; size * k * n];
+        for p in 0..size {
+            for j in 0..k {
+                for i in 0..n {
+                    let idx = (p * k + j) * n + i;
+                    data[idx] = self.fill(what, idx) % q[j];
+                }
+            }
+        }
+        data[0] = q[0] - 1;
+        data[n * k - 1] = 0;
+        if seeded {
+            if n * k < SEED_WORDS + 1 {
+                return Err("polynomial too small to hold a seed".into());
+            }
+            let base = n * k;
+            data[base] = SEED_FLAG;
+            for i in 0..SEED_WORDS {
+                data[base + 1 + i] = self.fill(what ^ 0x5eed, i);
+            }
+        }
+        let (scale, cf, ntt) = match self.scheme() {
+            Scheme::BFV => (1.0, 1, false),
+            Scheme::BGV => (1.0, 5 % self.kit.t().max(2), true),
+            Scheme::CKKS => (1572864.0, 1, true),
+        };
+        Ok(Ciphertext::from_members(size, k, n, data, id, scale, cf.max(1), ntt))
+    }
+
+    /// for BFV/BGV a genuine symmetric (seeded) encryption when `seeded`, otherwise the synthetic one
+    fn ct_any(&self, what: u64, size: usize, seeded: bool) -> Result<Ciphertext, String> {
+        if seeded && self.scheme() != Scheme::CKKS && what % 2 == 0 {
+            let p = self.kit.plain(&[1, 2, 3]);
+            let c = guard(|| self.kit.enc.encrypt_symmetric_new(&p)).map_err(|p| format!("encrypt_symmetric panicked: {p}"))?;
+            if !c.contains_seed() {
+                return Err("symmetric encryption did not keep its seed".into());
+            }
+            return Ok(c);
+        }
+        self.ct(what, size, seeded)
+    }
+
+    fn pt(&self, what: u64, ntt_form: bool) -> Plaintext {
+        let mut p = Plaintext::new();
+        if ntt_form {
+            let id = self.kit.levels()[0];
+            let q = self.kit.moduli_at(&id);
+            let n = self.kit.n();
+            let data: Vec<u64> = (0..n * q.len()).map(|i| self.fill(what, i) % q[i / n]).collect();
+            p.set_coeff_count(data.len());
+            *p.data_mut() = data;
+            p.set_parms_id(id);
+            p.set_scale(1024.0);
+        } else {
+            let t = self.kit.t().max(2);
+            let len = 1 + (what as usize % 3);
+            p.resize(len);
+            for i in 0..len {
+                p.data_mut()[i] = self.fill(what, i) % t;
+            }
+        }
+        p
+    }
+
+    fn cts(&self, count: usize, seeded: bool) -> Result<Vec<Ciphertext>, String> {
+        (0..count).map(|i| self.ct_any(100 + i as u64, 2 + i % 2, seeded)).collect()
+    }
+    fn pts(&self, count: usize) -> Vec<Plaintext> {
+        (0..count).map(|i| self.pt(200 + i as u64, i % 2 == 1)).collect()
+    }
+}
+
+/// container shapes: nested lengths, flattened consumption of `items`
+fn shape1<T: Clone>(variant: u8, items: &[T]) -> Vec<T> {
+    match variant {
+        0 => vec![],
+        _ => items[..2].to_vec(),
+    }
+}
+fn shape2<T: Clone>(variant: u8, items: &[T]) -> Vec<Vec<T>> {
+    match variant {
+        0 => vec![],
+        1 => vec![items[..2].to_vec()],
+        _ => vec![vec![items[0].clone()], vec![], items[1..3].to_vec()],
+    }
+}
+fn shape3<T: Clone>(variant: u8, items: &[T]) -> Vec<Vec<Vec<T>>> {
+    match variant {
+        0 => vec![],
+        1 => vec![vec![vec![items[0].clone()]]],
+        _ => vec![vec![vec![items[0].clone()], vec![]], vec![], vec![items[1..3].to_vec()]],
+    }
+}
+
+fn terms_for(n: usize) -> Vec<usize> {
+    vec![0, 2, n - 1]
+}
+
+pub fn build(o: &ObjSpec, seed: u64) -> Result<Obj, String> {
+    let tag = h64(&serde_json::to_string(o).unwrap_or_default());
+    let v = o.variant;
+    // context-free kinds first
+    match o.kind {
+        Kind::U64 => return Ok(obj_s([0u64, u64::MAX, 0x0102_0304_0506_0708][v as usize % 3], fp_u64)),
+        Kind::Usize => return Ok(obj_s([0usize, 3, usize::MAX][v as usize % 3], fp_usize)),
+        Kind::U8 => return Ok(obj_s([0u8, 1, 0xA5][v as usize % 3], fp_u8)),
+        Kind::Bool => return Ok(obj_s(v % 2 == 1, fp_bool)),
+        Kind::F64 => return Ok(obj_s([0.0f64, -1.5, f64::from_bits(0x7ff8_0000_0000_0001)][v as usize % 3], fp_f64)),
+        Kind::VecU64 => {
+            let x: Vec<u64> = (0..v as usize).map(|i| h64(&(seed, tag, i))).collect();
+            return Ok(obj_s(x, fp_vec_u64));
+        }
+        Kind::ParmsId => return Ok(obj_s([h64(&(seed, 1u8)), 0, u64::MAX, h64(&(seed, 2u8))] as ParmsID, fp_parms_id)),
+        Kind::Modulus => return Ok(obj_s(Modulus::new(o.spec.q[v as usize % o.spec.q.len()]), fp_modulus)),
+        Kind::VecModulus => return Ok(obj_s(o.spec.q.iter().map(|&q| Modulus::new(q)).collect::<Vec<_>>(), fp_vec_modulus)),
+        Kind::Params => return Ok(obj_s(o.spec.parms(), fp_params)),
+        _ => {}
+    }
+    let w = World::new(&o.spec, seed, tag)?;
+    let ctx = w.kit.ctx.clone();
+    let n = o.spec.n;
+    match o.kind {
+        Kind::Plain => Ok(obj_s(w.pt(7, v == 1), fp_pt)),
+        Kind::SecretKey => Ok(obj_s(w.kit.sk.clone(), fp_sk)),
+        Kind::Ct => {
+            let c = w.ct_any(v as u64, v as usize, o.seeded)?;
+            let r = expanded(&c, &ctx);
+            Ok(obj_c(c, &r, &ctx, fp_ct))
+        }
+        Kind::CtFull => {
+            let c = w.ct_any(v as u64, v as usize, o.seeded)?;
+            let r = fp_ct(&expanded(&c, &ctx));
+            let size = c.serialized_full_size(&ctx);
+            let (c1, c2) = (ctx.clone(), ctx.clone());
+            Ok(Obj {
+                ser: Box::new(move |mut wr| c.serialize_full(&c1, &mut wr)),
+                de: Box::new(move |mut rd| Ciphertext::deserialize_full(&c2, &mut rd).map(|y| fp_ct(&y))),
+                size,
+                ref_fp: Some(r),
+            })
+        }
+        Kind::CtTerms => {
+            let c = w.ct_any(v as u64, v as usize, o.seeded)?;
+            let terms = terms_for(n);
+            let size = c.serialized_terms_size(&ctx, terms.len());
+            let (c1, c2, t1, t2) = (ctx.clone(), ctx.clone(), terms.clone(), terms);
+            Ok(Obj {
+                ser: Box::new(move |mut wr| c.serialize_terms(&c1, &t1, &mut wr)),
+                de: Box::new(move |mut rd| Ciphertext::deserialize_terms(&c2, &t2, &mut rd).map(|y| fp_ct(&y))),
+                size,
+                ref_fp: None,
+            })
+        }
+        Kind::PublicKey => {
+            let k = guard(|| w.kit.keygen.create_public_key(o.seeded)).map_err(|p| format!("create_public_key panicked: {p}"))?;
+            if o.seeded && !k.contains_seed() {
+                return Err("public key did not keep its seed".into());
+            }
+            let r = expanded(&k, &ctx);
+            Ok(obj_c(k, &r, &ctx, fp_pk))
+        }
+        Kind::KSwitchKeys => {
+            he::env_real(seed, tag ^ 0x07e7);
+            let other = KeyGenerator::new(ctx.clone());
+            let k = guard(|| w.kit.keygen.create_keyswitching_key(other.secret_key(), o.seeded)).map_err(|p| format!("create_keyswitching_key panicked: {p}"))?;
+            let r = expanded(&k, &ctx);
+            Ok(obj_c(k, &r, &ctx, fp_ks))
+        }
+        Kind::RelinKeys => {
+            let k = guard(|| w.kit.keygen.create_relin_keys(o.seeded)).map_err(|p| format!("create_relin_keys panicked: {p}"))?;
+            let r = expanded(&k, &ctx);
+            Ok(obj_c(k, &r, &ctx, fp_rk))
+        }
+        Kind::GaloisKeys => {
+            // variant 0: one element (all other slots empty); 1: the default set; 2: no element at all
+            let k = guard(|| match v {
+                0 => w.kit.keygen.create_galois_keys_from_elts(&[3], o.seeded),
+                1 => w.kit.keygen.create_galois_keys(o.seeded),
+                _ => w.kit.keygen.create_galois_keys_from_elts(&[], o.seeded),
+            })
+            .map_err(|p| format!("create_galois_keys panicked: {p}"))?;
+            let r = expanded(&k, &ctx);
+            Ok(obj_c(k, &r, &ctx, fp_gk))
+        }
+        Kind::Poly => {
+            // variant 0: one ciphertext polynomial (with parms id); 1: coefficient-form plaintext (zero id)
+            let (data, id, reference) = if v == 0 {
+                let c = w.ct(9, 2, false)?;
+                (c.poly(1).to_vec(), *c.parms_id(), c.poly(1).to_vec())
+            } else {
+                if w.scheme() == Scheme::CKKS {
+                    return Err("CKKS has no coefficient-form plaintexts".into());
+                }
+                let p = w.pt(9, false);
+                let mut padded = p.data().clone();
+                padded.resize(n, 0);
+                (p.data().clone(), PARMS_ID_ZERO, padded)
+            };
+            let size = (PolynomialSerializer {}).serialized_polynomial_size(&ctx, id);
+            let (c1, c2) = (ctx.clone(), ctx.clone());
+            Ok(Obj {
+                ser: Box::new(move |mut wr| PolynomialSerializer::serialize_polynomial(&c1, &mut wr, &data, id)),
+                de: Box::new(move |mut rd| PolynomialSerializer::deserialize_polynomial(&c2, &mut rd).map(|y| h64(&y))),
+                size,
+                ref_fp: Some(h64(&reference)),
+            })
+        }
+        Kind::Plain1d => Ok(obj_s(Plain1d::new(shape1(v, &w.pts(3))), fp_p1)),
+        Kind::Plain2d => Ok(obj_s(Plain2d::new(shape2(v, &w.pts(3))), fp_p2)),
+        Kind::Plain3d => {
+            let x = Plain3d::new_2ds(shape3(v, &w.pts(3)).into_iter().map(Plain2d::new).collect());
+            Ok(obj_s(x, fp_p3))
+        }
+        Kind::Cipher1d | Kind::Cipher1dTerms => {
+            let x = Cipher1d::new(shape1(v, &w.cts(3, o.seeded)?));
+            if o.kind == Kind::Cipher1d {
+                let r = x.clone().expand_seed(&ctx);
+                return Ok(obj_c(x, &r, &ctx, fp_c1));
+            }
+            let terms = terms_for(n);
+            let size = x.serialized_terms_size(&ctx, terms.len());
+            let (c1, c2, t1, t2) = (ctx.clone(), ctx.clone(), terms.clone(), terms);
+            Ok(Obj {
+                ser: Box::new(move |mut wr| x.serialize_terms(&c1, &t1, &mut wr)),
+                de: Box::new(move |mut rd| Cipher1d::deserialize_terms(&c2, &t2, &mut rd).map(|y| fp_c1(&y))),
+                size,
+                ref_fp: None,
+            })
+        }
+        Kind::Cipher2d | Kind::Cipher2dTerms => {
+            let x = Cipher2d::new(shape2(v, &w.cts(3, o.seeded)?));
+            if o.kind == Kind::Cipher2d {
+                let r = x.clone().expand_seed(&ctx);
+                return Ok(obj_c(x, &r, &ctx, fp_c2));
+            }
+            let terms = terms_for(n);
+            let size = x.serialized_terms_size(&ctx, terms.len());
+            let (c1, c2, t1, t2) = (ctx.clone(), ctx.clone(), terms.clone(), terms);
+            Ok(Obj {
+                ser: Box::new(move |mut wr| x.serialize_terms(&c1, &t1, &mut wr)),
+                de: Box::new(move |mut rd| Cipher2d::deserialize_terms(&c2, &t2, &mut rd).map(|y| fp_c2(&y))),
+                size,
+                ref_fp: None,
+            })
+        }
+        Kind::Cipher3d | Kind::Cipher3dTerms => {
+            let x = Cipher3d::new_2ds(shape3(v, &w.cts(3, o.seeded)?).into_iter().map(Cipher2d::new).collect());
+            if o.kind == Kind::Cipher3d {
+                let r = x.clone().expand_seed(&ctx);
+                return Ok(obj_c(x, &r, &ctx, fp_c3));
+            }
+            let terms = terms_for(n);
+            let size = x.serialized_terms_size(&ctx, terms.len());
+            let (c1, c2, t1, t2) = (ctx.clone(), ctx.clone(), terms.clone(), terms);
+            Ok(Obj {
+                ser: Box::new(move |mut wr| x.serialize_terms(&c1, &t1, &mut wr)),
+                de: Box::new(move |mut rd| Cipher3d::deserialize_terms(&c2, &t2, &mut rd).map(|y| fp_c3(&y))),
+                size,
+                ref_fp: None,
+            })
+        }
+        Kind::RnspCt | Kind::RnspCtFull | Kind::RnspCtTerms | Kind::RnspVecCt | Kind::RnspPublicKey | Kind::RnspRelinKeys | Kind::RnspGaloisKeys => {
+            let mut spec2 = o.spec.clone();
+            spec2.t = RNSP_T2;
+            let w2 = World::new(&spec2, seed, tag ^ 0x2222)?;
+            let rctx = RnspHeContext { components: vec![ctx.clone(), w2.kit.ctx.clone()] };
+            let worlds = [&w, &w2];
+            let exp_ct = |c: &RnspCiphertext| RnspCiphertext::from_raw_parts(c.components.iter().zip(rctx.components.iter()).map(|(c, x)| expanded(c, x)).collect());
+            let mk_ct = |what: u64| -> Result<RnspCiphertext, String> {
+                Ok(RnspCiphertext::from_raw_parts(worlds.iter().map(|w| w.ct_any(what, 2 + (what as usize % 2), o.seeded)).collect::<Result<Vec<_>, _>>()?))
+            };
+            match o.kind {
+                Kind::RnspCt => {
+                    let c = mk_ct(v as u64)?;
+                    let r = exp_ct(&c);
+                    Ok(obj_r(c, &r, &rctx, fp_rct))
+                }
+                Kind::RnspVecCt => {
+                    let c: Vec<RnspCiphertext> = (0..v as u64).map(mk_ct).collect::<Result<_, _>>()?;
+                    let r: Vec<RnspCiphertext> = c.iter().map(exp_ct).collect();
+                    Ok(obj_r(c, &r, &rctx, fp_rvec))
+                }
+                Kind::RnspCtFull => {
+                    let c = mk_ct(v as u64)?;
+                    let r = fp_rct(&exp_ct(&c));
+                    let size = c.serialized_full_size(&rctx);
+                    let (c1, c2) = (rctx.clone(), rctx.clone());
+                    Ok(Obj {
+                        ser: Box::new(move |mut wr| c.serialize_full(&c1, &mut wr)),
+                        de: Box::new(move |mut rd| RnspCiphertext::deserialize_full(&c2, &mut rd).map(|y| fp_rct(&y))),
+                        size,
+                        ref_fp: Some(r),
+                    })
+                }
+                Kind::RnspCtTerms => {
+                    let c = mk_ct(v as u64)?;
+                    let terms = terms_for(n);
+                    let size = c.serialized_terms_size(&rctx, terms.len());
+                    let (c1, c2, t1, t2) = (rctx.clone(), rctx.clone(), terms.clone(), terms);
+                    Ok(Obj {
+                        ser: Box::new(move |mut wr| c.serialize_terms(&c1, &t1, &mut wr)),
+                        de: Box::new(move |mut rd| RnspCiphertext::deserialize_terms(&c2, &t2, &mut rd).map(|y| fp_rct(&y))),
+                        size,
+                        ref_fp: None,
+                    })
+                }
+                Kind::RnspPublicKey => {
+                    let parts: Vec<PublicKey> = guard(|| worlds.iter().map(|w| w.kit.keygen.create_public_key(o.seeded)).collect()).map_err(|p| format!("create_public_key panicked: {p}"))?;
+                    let r = RnspPublicKey::from_raw_parts(parts.iter().zip(rctx.components.iter()).map(|(k, x)| expanded(k, x)).collect());
+                    Ok(obj_r(RnspPublicKey::from_raw_parts(parts), &r, &rctx, fp_rpk))
+                }
+                Kind::RnspRelinKeys => {
+                    let parts: Vec<RelinKeys> = guard(|| worlds.iter().map(|w| w.kit.keygen.create_relin_keys(o.seeded)).collect()).map_err(|p| format!("create_relin_keys panicked: {p}"))?;
+                    let r = RnspRelinKeys::from_raw_parts(parts.iter().zip(rctx.components.iter()).map(|(k, x)| expanded(k, x)).collect());
+                    Ok(obj_r(RnspRelinKeys::from_raw_parts(parts), &r, &rctx, fp_rrk))
+                }
+                _ => {
+                    let parts: Vec<GaloisKeys> = guard(|| worlds.iter().map(|w| w.kit.keygen.create_galois_keys_from_elts(&[3, 2 * n - 1], o.seeded)).collect())
+                        .map_err(|p| format!("create_galois_keys panicked: {p}"))?;
+                    let r = RnspGaloisKeys::from_raw_parts(parts.iter().zip(rctx.components.iter()).map(|(k, x)| expanded(k, x)).collect());
+                    Ok(obj_r(RnspGaloisKeys::from_raw_parts(parts), &r, &rctx, fp_rgk))
+                }
+            }
+        }
+        _ => Err("unhandled kind".into()),
+    }
+}
+
+// per-thread cache of the last object built (cases arrive grouped by object); the build is a
+// deterministic function of (spec, seed), so caching cannot change any observation
+struct Built {
+    obj: Obj,
+    /// reference encoding (plain Vec<u8> sink)
+    bytes: Vec<u8>,
+    /// result of the fault-free run, judged once
+    baseline: Result<(), (String, String, String)>,
+    /// fingerprint every restored object must have
+    fp: u64,
+}
+
+thread_local! {
+    static CACHE: RefCell<Option<(u64, Rc<Result<Built, String>>)>> = const { RefCell::new(None) };
+}
+
+/// panic signature: message up to the first ':' (drops the embedded error value) + source file
+fn pclass(msg: &str) -> String {
+    let head = msg.split(" @ ").next().unwrap_or(msg);
+    let loc = msg.split(" @ ").nth(1).unwrap_or("");
+    let file = loc.rsplit('/').next().unwrap_or(loc);
+    let file = file.split(':').next().unwrap_or(file);
+    let head: String = head.split(": ").next().unwrap_or(head).chars().filter(|c| !c.is_ascii_digit()).take(60).collect();
+    format!("{}@{}", head.trim(), file)
+}
+
+/// source file whose serializers are the entry point of the kind
+fn family(k: Kind) -> &'static str {
+    match k {
+        Kind::Plain1d | Kind::Plain2d | Kind::Plain3d | Kind::Cipher1d | Kind::Cipher2d | Kind::Cipher3d | Kind::Cipher1dTerms | Kind::Cipher2dTerms | Kind::Cipher3dTerms => "matmul",
+        Kind::RnspCt | Kind::RnspCtFull | Kind::RnspCtTerms | Kind::RnspVecCt | Kind::RnspPublicKey | Kind::RnspRelinKeys | Kind::RnspGaloisKeys => "rns_plain",
+        _ => "serialize",
+    }
+}
+
+fn io_err(e: &io::Error) -> String {
+    format!("{:?}", e.kind())
+}
+
+fn build_full(o: &ObjSpec, seed: u64) -> Result<Built, String> {
+    let obj = build(o, seed)?;
+    let mut bytes: Vec<u8> = vec![];
+    let mut baseline = Ok(());
+    let r = guard(|| (obj.ser)(&mut bytes));
+    match r {
+        Err(p) => baseline = Err((format!("panic:{}", pclass(&p)), "fault-free serialization into a Vec<u8> returns Ok".into(), p)),
+        Ok(Err(e)) => baseline = Err(("baseline-err".into(), "fault-free serialization into a Vec<u8> returns Ok".into(), format!("Err({e})"))),
+        Ok(Ok(n)) => {
+            if n != bytes.len() || obj.size != bytes.len() {
+                baseline = Err((
+                    "baseline-count".into(),
+                    "returned count = bytes written = serialized_size".into(),
+                    format!("returned {n}, wrote {} bytes, serialized_size {}", bytes.len(), obj.size),
+                ));
+            }
+        }
+    }
+    let mut fp = obj.ref_fp.unwrap_or(0);
+    if baseline.is_ok() {
+        let mut rd: &[u8] = &bytes;
+        match guard(|| (obj.de)(&mut rd)) {
+            Err(p) => baseline = Err((format!("baseline-read-panic:{}", pclass(&p)), "fault-free deserialization returns Ok".into(), p)),
+            Ok(Err(e)) => baseline = Err(("baseline-read-err".into(), "fault-free deserialization returns Ok".into(), format!("Err({e})"))),
+            Ok(Ok(f)) => match obj.ref_fp {
+                Some(r) if r != f => baseline = Err(("baseline-read-mismatch".into(), "restored object equals the original (expanded)".into(), "a different object".into())),
+                Some(_) => {
+                    if !rd.is_empty() {
+                        baseline = Err(("baseline-read-leftover".into(), "the whole encoding is consumed".into(), format!("{} bytes left", rd.len())));
+                    }
+                }
+                None => fp = f,
+            },
+        }
+    }
+    Ok(Built { obj, bytes, baseline, fp })
+}
+
+fn built(o: &ObjSpec, seed: u64) -> Rc<Result<Built, String>> {
+    let key = h64(&(serde_json::to_string(o).unwrap_or_default(), seed));
+    let hit = CACHE.with(|c| c.borrow().as_ref().filter(|(k, _)| *k == key).map(|(_, b)| b.clone()));
+    if let Some(b) = hit {
+        return b;
+    }
+    let b = Rc::new(build_full(o, seed));
+    CACHE.with(|c| *c.borrow_mut() = Some((key, b.clone())));
+    b
+}
+
+
+// ------------------------------------------------------------------------------------------
+// process aborts (allocation failure inside a (de)serializer) become violations with a replay
+// ------------------------------------------------------------------------------------------
+//
+// A deserializer that takes a length from the wrong bytes asks the allocator for terabytes; the
+// allocation fails (address-space limit below) and the runtime aborts the process, which no
+// catch_unwind can intercept. Every case therefore registers its replay document in a
+// thread-local before it calls into the subject; a SIGABRT handler (async-signal-safe calls
+// only: mkdir/open/write/close/_exit) writes that document, prints the VIOLATION line and exits 1.
+
+use std::cell::Cell;
+use std::os::raw::{c_char, c_int};
+
+extern "C" {
+    fn setrlimit(resource: c_int, rlim: *const [u64; 2]) -> c_int;
+    fn signal(signum: c_int, handler: usize) -> usize;
+    fn write(fd: c_int, buf: *const u8, n: usize) -> isize;
+    fn open(path: *const c_char, flags: c_int, ...) -> c_int;
+    fn close(fd: c_int) -> c_int;
+    fn mkdir(path: *const c_char, mode: u32) -> c_int;
+    fn _exit(code: c_int) -> !;
+}
+
+thread_local! {
+    /// (path C string, document bytes, VIOLATION line) of the case this thread is executing
+    static ABORT_DOC: Cell<[(*const u8, usize); 3]> = const { Cell::new([(std::ptr::null(), 0); 3]) };
+    static ABORT_BUF: RefCell<[Vec<u8>; 3]> = const { RefCell::new([Vec::new(), Vec::new(), Vec::new()]) };
+}
+static ABORT_DIRS: std::sync::OnceLock<[std::ffi::CString; 2]> = std::sync::OnceLock::new();
+
+extern "C" fn on_abort(_sig: c_int) {
+    unsafe {
+        let d = ABORT_DOC.with(|c| c.get());
+        if !d[0].0.is_null() {
+            if let Some(dirs) = ABORT_DIRS.get() {
+                mkdir(dirs[0].as_ptr(), 0o755);
+                mkdir(dirs[1].as_ptr(), 0o755);
+            }
+            let fd = open(d[0].0 as *const c_char, 0o1101, 0o644 as c_int);
+            if fd >= 0 {
+                write(fd, d[1].0, d[1].1);
+                close(fd);
+            }
+            write(1, d[2].0, d[2].1);
+        }
+        _exit(if d[0].0.is_null() { 134 } else { 1 });
+    }
+}
+
+/// A defective deserializer can ask for terabytes: the address-space limit makes that fail at once instead of
+/// exhausting the machine (the check itself needs < 50 MB resident).
+fn install_process_guards() {
+    const RLIMIT_AS: c_int = 9;
+    const SIGABRT: c_int = 6;
+    let gib: u64 = std::env::var("VERIF_C15_AS_GIB").ok().and_then(|s| s.parse().ok()).unwrap_or(8);
+    let lim = [gib << 30, gib << 30];
+    let root = verif_root();
+    let c = |p: std::path::PathBuf| std::ffi::CString::new(p.to_string_lossy().as_bytes()).unwrap_or_default();
+    let _ = ABORT_DIRS.set([c(root.join("replays")), c(root.join("replays").join("C15"))]);
+    unsafe {
+        let _ = setrlimit(RLIMIT_AS, &lim);
+        signal(SIGABRT, on_abort as usize);
+    }
+}
+
+/// Registers what to write if the process aborts while this thread executes `case`.
+fn arm_abort_record<C: Serialize>(dir: &str, section: &str, o: &ObjSpec, case: &C, seed: u64) {
+    let k = key(dir, o, "process-abort");
+    let path = verif_root().join("replays").join("C15").join(format!("{:016x}.json", h64(&k)));
+    let doc = serde_json::json!({
+        "property": "C15", "key": k, "section": section, "case": case,
+        "expected": format!("[{}] Ok or Err; the process survives", kind_name(o)),
+        "observed": "the process aborted inside the (de)serializer (allocation failure from a garbage length field)",
+        "seed": seed, "occurrences": 1,
+    });
+    let mut p = path.to_string_lossy().as_bytes().to_vec();
+    let line = format!("VIOLATION property=C15 replay={}\n", path.display()).into_bytes();
+    p.push(0);
+    ABORT_BUF.with(|b| {
+        let mut b = b.borrow_mut();
+        b[0] = p;
+        b[1] = serde_json::to_vec_pretty(&doc).unwrap_or_default();
+        b[2] = line;
+        ABORT_DOC.with(|c| c.set([(b[0].as_ptr(), b[0].len()), (b[1].as_ptr(), b[1].len()), (b[2].as_ptr(), b[2].len())]));
+    });
+}
+
+fn disarm_abort_record() {
+    ABORT_DOC.with(|c| c.set([(std::ptr::null(), 0); 3]));
+}
+
+// ------------------------------------------------------------------------------------------
+// write side
+// ------------------------------------------------------------------------------------------
+
+#[derive(Serialize, Deserialize, Clone, Debug)]
+pub struct WCase {
+    pub obj: ObjSpec,
+    /// prefix script
+    pub script: WScript,
+    /// the prefix and every extension by up to `depth` further deviations (each at a later call index) are executed
+    pub depth: u8,
+}
+
+#[derive(Default)]
+struct WStats {
+    scripts: u64,
+    ok: u64,
+    errs: BTreeMap<String, u64>,
+    effective: u64,
+}
+
+type FailInfo = (String, String, String);
+
+fn acts_label(s: &WScript) -> String {
+    let mut v: Vec<&str> = vec![];
+    if s.cap.is_some() {
+        v.push("cap");
+    }
+    for d in &s.devs {
+        v.push(match d.act {
+            Act::Accept(_) => "short",
+            Act::Fail => "fail",
+            Act::Interrupted => "intr",
+            Act::Zero => "zero",
+        });
+    }
+    if v.is_empty() {
+        "none".into()
+    } else {
+        v.join("+")
+    }
+}
+
+/// One fault script on the real serializer; returns the recorded call trace.
+fn run_wscript(b: &Built, s: &WScript, st: &mut WStats) -> Result<Vec<u32>, FailInfo> {
+    let mut w = FaultyWriter::new(s, b.bytes.len());
+    let r = guard(|| (b.obj.ser)(&mut w));
+    st.scripts += 1;
+    if w.effective > 0 {
+        st.effective += 1;
+    }
+    let describe = || format!("writer script {} (faults: {})", serde_json::to_string(s).unwrap_or_default(), acts_label(s));
+    if w.overrun {
+        return Err((
+            format!("writes-beyond-encoding:{}:offer{}", acts_label(s), w.first_offer),
+            format!("{}: at most the {} bytes of the encoding are ever accepted by the sink in total", describe(), b.bytes.len()),
+            format!("the serializer offered more (result {:?})", r.as_ref().map(|x| x.as_ref().map_err(|e| e.kind()))),
+        ));
+    }
+    match r {
+        Err(p) if p.starts_with(BOUND_MSG) => Err((format!("unbounded-writes:{}:offer{}", acts_label(s), w.first_offer), format!("{}: the call returns after finitely many writes", describe()), p)),
+        Err(p) => Err((format!("panic:{}", pclass(&p)), format!("{}: Ok with the complete encoding, or Err; never a panic", describe()), p)),
+        Ok(Err(e)) => {
+            if w.effective == 0 {
+                return Err(("err-without-fault".into(), format!("{}: no fault was injected, so Ok", describe()), format!("Err({e})")));
+            }
+            *st.errs.entry(io_err(&e)).or_insert(0) += 1;
+            Ok(w.trace)
+        }
+        Ok(Ok(n)) => {
+            if w.sink != b.bytes {
+                let common = w.sink.iter().zip(b.bytes.iter()).take_while(|(a, b)| a == b).count();
+                return Err((
+                    format!("ok-but-sink-differs:{}:offer{}", acts_label(s), w.first_offer),
+                    format!("{}: Ok only if the sink holds the complete {}-byte encoding", describe(), b.bytes.len()),
+                    format!("Ok({n}) with {} bytes in the sink (first difference at offset {common})", w.sink.len()),
+                ));
+            }
+            if n != b.bytes.len() {
+                return Err((format!("ok-wrong-count:{}:offer{}", acts_label(s), w.first_offer), format!("{}: Ok({})", describe(), b.bytes.len()), format!("Ok({n}) (sink complete)")));
+            }
+            st.ok += 1;
+            Ok(w.trace)
+        }
+    }
+}
+
+/// deviations possible at a call that offers `offered` bytes under an optional uniform cap
+fn options(offered: u32, cap: Option<u8>) -> Vec<Act> {
+    let mut v = vec![];
+    let eff = match cap {
+        Some(c) => offered.min(c as u32),
+        None => offered,
+    };
+    for k in 1..=7u32 {
+        if k < eff {
+            v.push(Act::Accept(k as u8));
+        }
+    }
+    if offered > 0 {
+        v.extend([Act::Fail, Act::Interrupted, Act::Zero]);
+    }
+    v
+}
+
+fn explore(b: &Built, s: &WScript, depth: u8, st: &mut WStats) -> Result<(), (WScript, FailInfo)> {
+    let trace = run_wscript(b, s, st).map_err(|f| (s.clone(), f))?;
+    if depth == 0 {
+        return Ok(());
+    }
+    let from = s.devs.last().map(|d| d.call + 1).unwrap_or(0);
+    for j in from..trace.len() {
+        for act in options(trace[j], s.cap) {
+            let mut s2 = s.clone();
+            s2.devs.push(Dev { call: j, act });
+            explore(b, &s2, depth - 1, st)?;
+        }
+    }
+    Ok(())
+}
+
+fn symptom(class: &str) -> &str {
+    class.split(':').next().unwrap_or(class)
+}
+
+/// Reduce a failing script to a minimal one with the same symptom (drop the cap, drop single deviations — with and
+/// without shifting the later call indices by the one retry the dropped deviation caused), so that the violation
+/// signature names only the deviations that matter.
+fn shrink(b: &Built, mut s: WScript, mut f: FailInfo) -> (WScript, FailInfo) {
+    let mut dummy = WStats::default();
+    loop {
+        let mut cands: Vec<WScript> = vec![];
+        if s.cap.is_some() {
+            // without the cap the same stream positions are reached at other call indices: re-aim the deviations
+            let sink_starts = |sc: &WScript| {
+                let mut w = FaultyWriter::new(sc, b.bytes.len());
+                let _ = guard(|| (b.obj.ser)(&mut w));
+                w.starts
+            };
+            let (with_cap, without) = (sink_starts(&s), sink_starts(&WScript::default()));
+            let mut devs = vec![];
+            for d in &s.devs {
+                if let Some(&pos) = with_cap.get(d.call) {
+                    if let Some(j) = without.iter().rposition(|&st| st <= pos) {
+                        devs.push(Dev { call: j, act: d.act });
+                    }
+                }
+            }
+            devs.dedup_by_key(|d| d.call);
+            cands.push(WScript { cap: None, devs });
+            cands.push(WScript { cap: None, devs: s.devs.clone() });
+        }
+        for i in 0..s.devs.len() {
+            let mut shifted = s.clone();
+            shifted.devs.remove(i);
+            let plain = shifted.clone();
+            for d in shifted.devs.iter_mut().skip(i) {
+                d.call = d.call.saturating_sub(1);
+            }
+            if shifted != plain {
+                cands.push(shifted);
+            }
+            cands.push(plain);
+        }
+        let mut better = None;
+        for c in cands {
+            if c.cap.is_none() && c.devs.is_empty() {
+                continue;
+            }
+            if let Err(f2) = run_wscript(b, &c, &mut dummy) {
+                if symptom(&f2.0) == symptom(&f.0) {
+                    better = Some((c, f2));
+                    break;
+                }
+            }
+        }
+        match better {
+            Some((c, f2)) => {
+                s = c;
+                f = f2;
+            }
+            None => return (s, f),
+        }
+    }
+}
+
+fn kind_name(o: &ObjSpec) -> String {
+    format!("{:?}", o.kind)
+}
+
+/// violation signature: direction, source-file family of the entry point, symptom class (the object kind and the
+/// exact script are in the case / expected text)
+fn key(dir: &str, o: &ObjSpec, class: &str) -> String {
+    format!("{dir}:{}:{class}", family(o.kind))
+}
+
+fn check_write(c: &WCase, seed: u64, section: &str) -> CaseOut {
+    arm_abort_record("write", section, &c.obj, c, seed);
+    let out = check_write_inner(c, seed);
+    disarm_abort_record();
+    out
+}
+
+fn check_write_inner(c: &WCase, seed: u64) -> CaseOut {
+    let b = built(&c.obj, seed);
+    let b = match b.as_ref() {
+        Ok(b) => b,
+        Err(e) => return CaseOut::skip(&format!("object cannot be built: {e}")),
+    };
+    if let Err((class, exp, obs)) = &b.baseline {
+        return CaseOut::fail(key("write", &c.obj, class), format!("[{}] {exp}", kind_name(&c.obj)), obs.clone());
+    }
+    let mut st = WStats::default();
+    match explore(b, &c.script, c.depth, &mut st) {
+        Err((s, f)) => {
+            let (_, (class, exp, obs)) = shrink(b, s, f);
+            CaseOut::fail(key("write", &c.obj, &class), format!("[{}] {exp}", kind_name(&c.obj)), obs)
+        }
+        Ok(()) => {
+            let errs: Vec<&String> = st.errs.keys().collect();
+            CaseOut::pass(st.effective > 0, h64(&(kind_name(&c.obj), st.ok > 0, errs, st.effective > 0)), st.scripts)
+        }
+    }
+}
+
+// ------------------------------------------------------------------------------------------
+// read side
+// ------------------------------------------------------------------------------------------
+
+#[derive(Serialize, Deserialize, Clone, Copy, Debug, PartialEq, Eq)]
+pub enum RMode {
+    /// every truncation offset 0..len-1, then the complete stream
+    Truncate,
+    /// complete stream, one Interrupted resp. one hard error at every read-call index
+    Faults,
+    /// every truncation offset combined with one Interrupted at every read-call index
+    TruncateInterrupted,
+}
+
+#[derive(Serialize, Deserialize, Clone, Debug)]
+pub struct RCase {
+    pub obj: ObjSpec,
+    /// at most this many bytes per read call (0 = unlimited)
+    pub limit: usize,
+    pub mode: RMode,
+}
+
+#[derive(Default)]
+struct RStats {
+    scripts: u64,
+    ok: u64,
+    errs: BTreeMap<String, u64>,
+}
+
+/// One reader script. `must_fail`: the stream is incomplete.
+fn run_rscript(b: &Built, end: usize, limit: usize, dev: Option<(usize, RAct)>, st: &mut RStats) -> Result<usize, FailInfo> {
+    let mut r = FaultyReader::new(&b.bytes, end, limit, dev);
+    let res = guard(|| (b.obj.de)(&mut r));
+    st.scripts += 1;
+    let len = b.bytes.len();
+    let describe = || {
+        format!(
+            "stream of {len} bytes cut after {end}, at most {} bytes per read call, deviation {:?}",
+            if limit == 0 { "unlimited".to_string() } else { limit.to_string() },
+            dev
+        )
+    };
+    match res {
+        Err(p) if p.starts_with(BOUND_MSG) => Err(("unbounded-reads".into(), format!("{}: the call returns after finitely many reads", describe()), p)),
+        Err(p) => Err((format!("panic:{}", pclass(&p)), format!("{}: Err (or the exact object for a complete stream); never a panic", describe()), p)),
+        Ok(Err(e)) => {
+            if end == len && r.effective == 0 {
+                return Err(("complete-stream-err".into(), format!("{}: the object is restored", describe()), format!("Err({e})")));
+            }
+            *st.errs.entry(io_err(&e)).or_insert(0) += 1;
+            Ok(r.call)
+        }
+        Ok(Ok(fp)) => {
+            if end < len {
+                return Err((
+                    "truncated-ok".into(),
+                    format!("{}: Err, the encoding is incomplete", describe()),
+                    format!("Ok(object) after consuming {} bytes in {} read calls{}", r.pos, r.call, if fp == b.fp { " (equal to the original!)" } else { "" }),
+                ));
+            }
+            if fp != b.fp {
+                return Err(("restored-differs".into(), format!("{}: the restored object equals the original", describe()), "Ok(a different object)".into()));
+            }
+            if r.pos != len {
+                return Err(("restored-leftover".into(), format!("{}: all {len} bytes consumed", describe()), format!("{} consumed", r.pos)));
+            }
+            st.ok += 1;
+            Ok(r.call)
+        }
+    }
+}
+
+fn check_read(c: &RCase, seed: u64, section: &str) -> CaseOut {
+    arm_abort_record("read", section, &c.obj, c, seed);
+    let out = check_read_inner(c, seed);
+    disarm_abort_record();
+    out
+}
+
+fn check_read_inner(c: &RCase, seed: u64) -> CaseOut {
+    let b = built(&c.obj, seed);
+    let b = match b.as_ref() {
+        Ok(b) => b,
+        Err(e) => return CaseOut::skip(&format!("object cannot be built: {e}")),
+    };
+    if let Err((class, exp, obs)) = &b.baseline {
+        return CaseOut::fail(key("read", &c.obj, class), format!("[{}] {exp}", kind_name(&c.obj)), obs.clone());
+    }
+    let len = b.bytes.len();
+    let mut st = RStats::default();
+    let r = (|| -> Result<(), FailInfo> {
+        match c.mode {
+            RMode::Truncate => {
+                for end in 0..=len {
+                    run_rscript(b, end, c.limit, None, &mut st)?;
+                }
+            }
+            RMode::Faults => {
+                let calls = run_rscript(b, len, c.limit, None, &mut st)?;
+                for i in 0..calls {
+                    run_rscript(b, len, c.limit, Some((i, RAct::Interrupted)), &mut st)?;
+                    run_rscript(b, len, c.limit, Some((i, RAct::Fail)), &mut st)?;
+                }
+            }
+            RMode::TruncateInterrupted => {
+                for end in 0..len {
+                    let calls = run_rscript(b, end, c.limit, None, &mut st)?;
+                    for i in 0..calls {
+                        run_rscript(b, end, c.limit, Some((i, RAct::Interrupted)), &mut st)?;
+                    }
+                }
+            }
+        }
+        Ok(())
+    })();
+    match r {
+        Err((class, exp, obs)) => CaseOut::fail(key("read", &c.obj, &class), format!("[{}] {exp}", kind_name(&c.obj)), obs),
+        Ok(()) => {
+            let errs: Vec<&String> = st.errs.keys().collect();
+            CaseOut::pass(st.scripts > 1, h64(&(kind_name(&c.obj), st.ok > 0, errs, c.limit)), st.scripts)
+        }
+    }
+}
+
+// ------------------------------------------------------------------------------------------
+// enumeration
+// ------------------------------------------------------------------------------------------
+
+fn objects(thorough: bool) -> Vec<ObjSpec> {
+    let mut v: Vec<ObjSpec> = vec![];
+    let o = |kind: Kind, spec: &ParamSpec, seeded: bool, variant: u8| ObjSpec { kind, spec: spec.clone(), seeded, variant };
+    // N = 8: two 1-byte primes (data level: one prime), three 1-byte primes (data level: two primes, room for a seed),
+    // a 2-byte + 3-byte prime; N = 4: the smallest
+    let s2 = |s: Scheme| ParamSpec::new(s, 8, vec![97, 193], 17);
+    let s3 = |s: Scheme| ParamSpec::new(s, 8, vec![97, 193, 241], 17);
+    let sw = |s: Scheme| ParamSpec::new(s, 8, vec![12289, 65537], 17);
+    let s4 = |s: Scheme| ParamSpec::new(s, 4, vec![73, 89], 17);
+    let bfv2 = s2(Scheme::BFV);
+
+    for variant in 0..3 {
+        for k in [Kind::U64, Kind::Usize, Kind::U8, Kind::F64] {
+            v.push(o(k, &bfv2, false, variant));
+        }
+    }
+    v.push(o(Kind::Bool, &bfv2, false, 0));
+    v.push(o(Kind::Bool, &bfv2, false, 1));
+    v.push(o(Kind::VecU64, &bfv2, false, 0));
+    v.push(o(Kind::VecU64, &bfv2, false, 3));
+    v.push(o(Kind::ParmsId, &bfv2, false, 0));
+    v.push(o(Kind::Modulus, &bfv2, false, 0));
+    v.push(o(Kind::Modulus, &sw(Scheme::BFV), false, 1));
+    v.push(o(Kind::VecModulus, &s3(Scheme::BFV), false, 0));
+    for s in Scheme::all() {
+        v.push(o(Kind::Params, &s2(s), false, 0));
+    }
+    let mut sp = s3(Scheme::BGV);
+    sp.special_enc = true;
+    v.push(o(Kind::Params, &sp, false, 0));
+
+    for s in Scheme::all() {
+        // plaintexts, secret key
+        v.push(o(Kind::Plain, &s2(s), false, 1));
+        if s != Scheme::CKKS {
+            v.push(o(Kind::Plain, &s2(s), false, 0));
+        }
+        v.push(o(Kind::SecretKey, &s4(s), false, 0));
+        // ciphertexts, three formats: size 2 and 3 unseeded (one data prime), seeded (two data primes)
+        for k in [Kind::Ct, Kind::CtFull, Kind::CtTerms] {
+            v.push(o(k, &s2(s), false, 2));
+            v.push(o(k, &s2(s), false, 3));
+            v.push(o(k, &s3(s), true, 2));
+            v.push(o(k, &s3(s), true, 3)); // synthetic seeded for every scheme (odd variant)
+        }
+        v.push(o(Kind::Ct, &s4(s), false, 2));
+        v.push(o(Kind::Poly, &s2(s), false, 0));
+        if s != Scheme::CKKS {
+            v.push(o(Kind::Poly, &s2(s), false, 1));
+        }
+        // keys
+        for seeded in [false, true] {
+            v.push(o(Kind::PublicKey, &s2(s), seeded, 0));
+            v.push(o(Kind::RelinKeys, &s2(s), seeded, 0));
+            v.push(o(Kind::KSwitchKeys, &s2(s), seeded, 0));
+            v.push(o(Kind::GaloisKeys, &s2(s), seeded, 0));
+        }
+        v.push(o(Kind::PublicKey, &s4(s), false, 0));
+    }
+    v.push(o(Kind::Ct, &sw(Scheme::BFV), false, 2));
+    v.push(o(Kind::CtTerms, &sw(Scheme::BGV), false, 2));
+    v.push(o(Kind::PublicKey, &sw(Scheme::CKKS), true, 0));
+    v.push(o(Kind::RelinKeys, &s3(Scheme::BFV), true, 0));
+    v.push(o(Kind::GaloisKeys, &s2(Scheme::BFV), true, 1));
+    v.push(o(Kind::GaloisKeys, &s2(Scheme::BGV), false, 1));
+    v.push(o(Kind::GaloisKeys, &s2(Scheme::CKKS), false, 2));
+
+    // containers: empty, regular, ragged
+    for shape in 0..3u8 {
+        for (s, seeded) in [(Scheme::BFV, false), (Scheme::BGV, true), (Scheme::CKKS, false)] {
+            let spec = if seeded { s3(s) } else { s2(s) };
+            if shape == 0 && s != Scheme::BFV {
+                continue;
+            }
+            for k in [Kind::Plain1d, Kind::Plain2d, Kind::Plain3d] {
+                if !(shape == 2 && k == Kind::Plain1d) && !seeded {
+                    v.push(o(k, &spec, false, shape));
+                }
+            }
+            for k in [Kind::Cipher1d, Kind::Cipher2d, Kind::Cipher3d, Kind::Cipher1dTerms, Kind::Cipher2dTerms, Kind::Cipher3dTerms] {
+                if !(shape == 2 && matches!(k, Kind::Cipher1d | Kind::Cipher1dTerms)) {
+                    v.push(o(k, &spec, seeded && shape != 0, shape));
+                }
+            }
+        }
+    }
+    // RNS-plaintext wrappers
+    for s in [Scheme::BFV, Scheme::BGV] {
+        for k in [Kind::RnspCt, Kind::RnspCtFull, Kind::RnspCtTerms] {
+            v.push(o(k, &s2(s), false, 2));
+            v.push(o(k, &s3(s), true, 2));
+        }
+        v.push(o(Kind::RnspVecCt, &s2(s), false, 0));
+        v.push(o(Kind::RnspVecCt, &s2(s), false, 2));
+        for seeded in [false, true] {
+            v.push(o(Kind::RnspPublicKey, &s2(s), seeded, 0));
+            v.push(o(Kind::RnspRelinKeys, &s2(s), seeded, 0));
+        }
+        v.push(o(Kind::RnspGaloisKeys, &s2(s), s == Scheme::BFV, 0));
+    }
+    // the largest quick objects: default Galois key set at N = 16 with three primes (two-entry keys), 2-3 KB
+    let big = ParamSpec::new(Scheme::BFV, 16, vec![97, 193, 257], 17);
+    v.push(o(Kind::GaloisKeys, &big, false, 1));
+    v.push(o(Kind::GaloisKeys, &big, true, 1));
+    if thorough {
+        // the largest object: default Galois key set, N = 16, 4/5/8-byte residues (~8 KB, ~7700 write calls)
+        let big_wide = ParamSpec::new(Scheme::BGV, 16, he::chain(16, &[30, 40, 60]), 17);
+        v.push(o(Kind::GaloisKeys, &big_wide, false, 1));
+        v.push(o(Kind::GaloisKeys, &big_wide, true, 1));
+        // wider primes (4 and 8 bytes per residue), N = 16 keys with the default Galois set, three-prime keys
+        for s in Scheme::all() {
+            let wide = ParamSpec::new(s, 8, he::chain(8, &[30, 60]), 17);
+            let n16 = ParamSpec::new(s, 16, vec![97, 193, 257], 17);
+            // seeded ciphertexts need two data primes at N = 8 (a seed takes 9 words)
+            let wide3 = ParamSpec::new(s, 8, he::chain(8, &[30, 40, 60]), 17);
+            for k in [Kind::Ct, Kind::CtFull, Kind::CtTerms, Kind::PublicKey, Kind::RelinKeys] {
+                v.push(o(k, &wide, false, 2));
+                let ct = matches!(k, Kind::Ct | Kind::CtFull | Kind::CtTerms);
+                v.push(o(k, if ct { &wide3 } else { &wide }, true, 2));
+            }
+            for seeded in [false, true] {
+                v.push(o(Kind::GaloisKeys, &n16, seeded, 1));
+                v.push(o(Kind::RelinKeys, &n16, seeded, 0));
+                v.push(o(Kind::Ct, &n16, seeded, 3));
+                v.push(o(Kind::Cipher3d, &n16, seeded, 2));
+            }
+        }
+    }
+    let mut seen = std::collections::HashSet::new();
+    v.retain(|x| seen.insert(x.clone()));
+    v
+}
+
+struct Listed {
+    obj: ObjSpec,
+    /// offered length per write call of the fault-free run
+    trace: Vec<u32>,
+    len: usize,
+}
+
+/// Builds every object once (main thread) to learn its write-call trace and encoding length.
+fn listing(cfg: &RunCfg) -> Vec<Listed> {
+    let mut out = vec![];
+    for o in objects(cfg.thorough()) {
+        let b = build_full(&o, cfg.seed);
+        let (trace, len) = match &b {
+            Ok(b) if b.baseline.is_ok() => {
+                let s = WScript::default();
+                let mut w = FaultyWriter::new(&s, b.bytes.len());
+                let _ = guard(|| (b.obj.ser)(&mut w));
+                (w.trace, b.bytes.len())
+            }
+            // unbuildable objects and broken baselines are reported by the cases themselves
+            Err(e) => {
+                eprintln!("[C15] object {:?} {} seeded={} variant={} cannot be built: {e}", o.kind, o.spec.label(), o.seeded, o.variant);
+                (vec![8], 8)
+            }
+            _ => (vec![8], 8),
+        };
+        out.push(Listed { obj: o, trace, len });
+    }
+    heathcliff_thread_init();
+    out.sort_by_key(|l| l.trace.len());
+    if std::env::var("VERIF_C15_LIST").is_ok() {
+        for l in &out {
+            eprintln!("[C15] object {:?} {} seeded={} variant={}: {} B, {} write calls", l.obj.kind, l.obj.spec.label(), l.obj.seeded, l.obj.variant, l.len, l.trace.len());
+        }
+    }
+    out
+}
+
+pub fn sections(cfg: &RunCfg) -> Vec<Box<dyn AnySection>> {
+    install_process_guards();
+    let seed = cfg.seed;
+    let thorough = cfg.thorough();
+    let list = listing(cfg);
+    let pair_limit: usize = if thorough { 1600 } else { 420 };
+    let triple_limit: usize = if thorough { 72 } else { 26 };
+    let ti_limit: usize = if thorough { 1200 } else { 300 };
+    let mut v: Vec<Box<dyn AnySection>> = vec![];
+    let maxlen = list.iter().map(|l| l.len).max().unwrap_or(0);
+    let maxcalls = list.iter().map(|l| l.trace.len()).max().unwrap_or(0);
+    let nobj = list.len();
+
+    // write: fault-free + all single deviations
+    let cases: Vec<WCase> = list.iter().map(|l| WCase { obj: l.obj.clone(), script: WScript::default(), depth: 1 }).collect();
+    v.push(
+        E1::new(
+            "write_single",
+            &format!("{nobj} objects (encodings up to {maxlen} B, up to {maxcalls} write calls): fault-free run + every single deviation {{accept 1..7 < offered, Other, Interrupted, Ok(0)}} at every write-call index"),
+            cases.into_iter(),
+            move |c: &WCase| check_write(c, seed, "write_single"),
+        )
+        .deadline(Duration::from_secs(20)),
+    );
+
+    // write: all pairs (one case per first deviation)
+    let mut cases: Vec<WCase> = vec![];
+    let mut npair_objs = 0;
+    for l in list.iter().filter(|l| l.trace.len() <= pair_limit) {
+        npair_objs += 1;
+        for (j, &off) in l.trace.iter().enumerate() {
+            for act in options(off, None) {
+                cases.push(WCase { obj: l.obj.clone(), script: WScript { cap: None, devs: vec![Dev { call: j, act }] }, depth: 1 });
+            }
+        }
+    }
+    v.push(
+        E1::new(
+            "write_pairs",
+            &format!("{npair_objs} objects with <= {pair_limit} write calls: every pair of deviations (second at any later call index of the run with the first applied)"),
+            cases.into_iter(),
+            move |c: &WCase| check_write(c, seed, "write_pairs"),
+        )
+        .deadline(Duration::from_secs(20)),
+    );
+
+    // write: all triples for short call sequences
+    let mut cases: Vec<WCase> = vec![];
+    let mut ntriple_objs = 0;
+    for l in list.iter().filter(|l| l.trace.len() <= triple_limit) {
+        ntriple_objs += 1;
+        for (j, &off) in l.trace.iter().enumerate() {
+            for act in options(off, None) {
+                cases.push(WCase { obj: l.obj.clone(), script: WScript { cap: None, devs: vec![Dev { call: j, act }] }, depth: 2 });
+            }
+        }
+    }
+    v.push(
+        E1::new(
+            "write_triples",
+            &format!("{ntriple_objs} objects with <= {triple_limit} write calls: every triple of deviations"),
+            cases.into_iter(),
+            move |c: &WCase| check_write(c, seed, "write_triples"),
+        )
+        .deadline(Duration::from_secs(40)),
+    );
+
+    // write: uniformly limited writers (+ one failure point)
+    let mut cases: Vec<WCase> = vec![];
+    for l in list.iter() {
+        for k in 1..=7u8 {
+            cases.push(WCase { obj: l.obj.clone(), script: WScript { cap: Some(k), devs: vec![] }, depth: 1 });
+        }
+    }
+    v.push(
+        E1::new(
+            "write_uniform",
+            &format!("{nobj} objects x writers accepting at most k = 1..7 bytes on every call, alone and with one further deviation at every call index"),
+            cases.into_iter(),
+            move |c: &WCase| check_write(c, seed, "write_uniform"),
+        )
+        .deadline(Duration::from_secs(20)),
+    );
+
+    // read: truncation
+    let limits = [1usize, 3, 8, 0];
+    let mut cases: Vec<RCase> = vec![];
+    for l in list.iter() {
+        for &limit in &limits {
+            cases.push(RCase { obj: l.obj.clone(), limit, mode: RMode::Truncate });
+        }
+    }
+    v.push(
+        E1::new(
+            "read_trunc",
+            &format!("{nobj} objects x read limits {{1,3,8,unlimited}} x every truncation offset 0..len-1 (Err required) + the complete stream (exact restoration required)"),
+            cases.into_iter(),
+            move |c: &RCase| check_read(c, seed, "read_trunc"),
+        )
+        .deadline(Duration::from_secs(20)),
+    );
+
+    // read: interruptions and hard errors
+    let mut cases: Vec<RCase> = vec![];
+    for l in list.iter() {
+        for &limit in &limits {
+            cases.push(RCase { obj: l.obj.clone(), limit, mode: RMode::Faults });
+        }
+    }
+    let mut nti = 0;
+    for l in list.iter().filter(|l| l.len <= ti_limit) {
+        nti += 1;
+        for &limit in &limits {
+            cases.push(RCase { obj: l.obj.clone(), limit, mode: RMode::TruncateInterrupted });
+        }
+    }
+    v.push(
+        E1::new(
+            "read_faults",
+            &format!("{nobj} objects x read limits x one Interrupted / one hard error at every read-call index of the complete stream; {nti} objects with encodings <= {ti_limit} B: every (truncation offset, Interrupted index)"),
+            cases.into_iter(),
+            move |c: &RCase| check_read(c, seed, "read_faults"),
+        )
+        .deadline(Duration::from_secs(20)),
+    );
+    v
 }
